@@ -465,3 +465,5 @@ def run(ctx):
     boundaries.check_stream_new(ctx, 'C03.RN')
     from .. import boundaries as _b
     _b.check_predicates(ctx, 'C03.RP', 'C03')
+    from .. import boundaries as _b
+    _b.check_updates(ctx, 'C03.RU', 'C03')
